@@ -173,9 +173,52 @@ class Report(object):
 _POOL_FN = None
 
 
+def task_call(fn, item):
+    """Run one task (block / chunk of histories) of a check from a cold interpreter state: class-level caches of plasTeX
+    are dropped first, so what a task observes depends on the task alone and not on which tasks the same worker ran
+    before.  Candidate violations are tagged with the task, so that a violation that needs the earlier cases of its
+    task (history-dependent behaviour of the code under test) can be replayed by re-running the task."""
+    from vp import state
+    state.cold()
+    res = fn(item)
+    reps = [res] if isinstance(res, Report) else [r for r in res if isinstance(r, Report)] if isinstance(res, tuple) else []
+    tag = None
+    for r in reps:
+        for v in r.violations:
+            if '_task' not in v:
+                if tag is None:
+                    import base64
+                    tag = {'module': fn.__module__, 'fn': fn.__name__,
+                           'arg_pickle_b64': base64.b64encode(pickle.dumps(item, 2)).decode('ascii'),
+                           'arg_repr': repr(item)[:400]}
+                v['_task'] = tag
+    return res
+
+
+def replay_task(arg):
+    """(task tag, case) -> the violation record for `case` when the task is re-run in this (fresh) process, else None"""
+    tag, case = arg
+    import base64, importlib
+    mod = importlib.import_module(tag['module'])
+    fn = getattr(mod, tag['fn'])
+    item = pickle.loads(base64.b64decode(tag['arg_pickle_b64']))
+    MAXV, Report.MAX_VIOL = Report.MAX_VIOL, 10 ** 6
+    try:
+        res = task_call(fn, item)
+    finally:
+        Report.MAX_VIOL = MAXV
+    reps = [res] if isinstance(res, Report) else [r for r in res if isinstance(r, Report)] if isinstance(res, tuple) else []
+    want = json.dumps(jsonable(case), sort_keys=True)
+    for r in reps:
+        for v in r.violations:
+            if json.dumps(v['case'], sort_keys=True) == want:
+                return {k: v[k] for k in ('case', 'expected', 'observed', 'detail')}
+    return None
+
+
 def _pool_call(item):
     try:
-        return ('ok', _POOL_FN(item))
+        return ('ok', task_call(_POOL_FN, item))
     except BaseException as e:        # harness error inside a worker
         return ('err', '%s\n%s' % (repr(item)[:300], traceback.format_exc()))
 
@@ -188,7 +231,7 @@ def pmap(fn, items, procs=None, chunksize=1, ordered=False):
     procs = procs or NPROC
     if procs <= 1 or len(items) <= 1:
         for it in items:
-            yield fn(it)
+            yield task_call(fn, it)
         return
     _POOL_FN = fn
     ctx = multiprocessing.get_context('fork')
